@@ -231,3 +231,49 @@ Proof.
   destruct (Rlt_dec tol (arc_collinearity v1 p3 v2)) as [Hc|Hc]; [|lra].
   apply a3_chord. rewrite <- collinearity_denom. nra.
 Qed.
+
+(** ** point-wise form of the origin arc: for any origin equidistant from two end points that are not opposite each
+    other, the written point is on the circle about the origin through the end points, on the bisector of the chord on
+    the side of the chord (minor arc), and equidistant from both end points *)
+Lemma arc_mid_pointwise c p1 p3 :
+  norm2 (vsub p1 c) = norm2 (vsub p3 c) -> vadd (vsub p1 c) (vsub p3 c) <> vzero ->
+  let m := arc_mid c p1 p3 in
+  norm2 (vsub m c) = norm2 (vsub p1 c)
+  /\ (exists t, 0 < t /\ vsub m c = vscale t (vadd (vsub p1 c) (vsub p3 c)))
+  /\ norm2 (vsub m p1) = norm2 (vsub m p3).
+Proof.
+  intros He Hs m.
+  set (r1 := vsub p1 c) in *. set (r3 := vsub p3 c) in *. set (s := vadd r1 r3) in *.
+  assert (Hns : 0 < norm s) by (apply norm_pos_neq; exact Hs).
+  assert (Hr1 : norm (vsub c p1) = norm r1).
+  { change (norm (vsub c p1)) with (dist c p1). rewrite dist_sym. reflexivity. }
+  assert (Hw : vsub (secant_mid p1 p3) c = vscale (/ 2) s).
+  { unfold s, r1, r3, secant_mid. d3 c p1 p3. apply vec_eq; vcbv; field. }
+  assert (Hnw : norm (vscale (/ 2) s) = / 2 * norm s) by (rewrite norm_scale, Rabs_right; lra).
+  assert (Hm : vsub m c = vscale (norm r1 / norm s) s).
+  { unfold m, arc_mid. rewrite vsub_vadd_l, Hr1, Hw. unfold vunit. rewrite Hnw, !vscale_vscale. f_equal. field. lra. }
+  assert (Hr1pos : 0 < norm r1).
+  { destruct (Req_dec (norm r1) 0) as [Z|NZ]; [|pose proof (norm_nonneg r1); lra].
+    exfalso. apply Hs.
+    assert (Z1 : r1 = vzero) by (apply norm2_zero; rewrite <- norm_sq, Z; ring).
+    assert (Z3 : r3 = vzero) by (apply norm2_zero; rewrite <- He, <- norm_sq, Z; ring).
+    unfold s. rewrite Z1, Z3. vcbv. f_equal; [f_equal|]; ring. }
+  split; [|split].
+  - rewrite Hm, norm2_scale, <- (norm_sq s), <- (norm_sq r1). field. lra.
+  - exists (norm r1 / norm s). split; [apply Rdiv_lt_0_compat; assumption | exact Hm].
+  - assert (E1 : vsub m p1 = vsub (vsub m c) r1) by (unfold r1; d3 m c p1; apply vec_eq; vcbv; ring).
+    assert (E3 : vsub m p3 = vsub (vsub m c) r3) by (unfold r3; d3 m c p3; apply vec_eq; vcbv; ring).
+    rewrite E1, E3, Hm. set (t := norm r1 / norm s). unfold s.
+    assert (X : forall a b k, norm2 (vsub (vscale k (vadd a b)) a) - norm2 (vsub (vscale k (vadd a b)) b)
+                              = (1 - 2 * k) * (norm2 a - norm2 b)).
+    { intros a b k. d2 a b. vcbv. ring. }
+    pose proof (X r1 r3 t) as Y. rewrite He in Y. lra.
+Qed.
+
+Lemma arc_from_origin_equidistant tol c p1 p3 :
+  0 <= tol -> norm2 (vsub p1 c) = norm2 (vsub p3 c) -> arc_from_origin tol p1 p3 c 1 = arc_mid c p1 p3.
+Proof.
+  intros Ht He. unfold arc_from_origin. destruct (Req_EM_T 1 1) as [_|N]; [|exfalso; apply N; reflexivity].
+  rewrite (norm_eq_of_norm2 _ _ He). replace (norm (vsub p3 c) - norm (vsub p3 c)) with 0 by ring. rewrite Rabs_R0.
+  destruct (Rlt_dec tol 0); [lra | reflexivity].
+Qed.
